@@ -70,6 +70,7 @@ package hcldec
 //@ requires s.Nested != nil && content != nil
 //@ ensures empty: len(content.Blocks) == 0 ==> conformsTo(ret0, mapN(implied(s.Nested), len(s.LabelNames)))
 //@ ensures unknown: !isKnownVal(ret0) ==> conformsTo(ret0, mapN(implied(s.Nested), len(s.LabelNames)))
+//@ ensures unknownMarks: !isKnownVal(ret0) && len(ret1) == 0 ==> (exists j int :: { content.Blocks[j] } 0 <= j && j < len(content.Blocks) && (forall k iface :: { marked(ret0, k) } bodyMarked(content.Blocks[j].Body, k) ==> marked(ret0, k)))
 //@ loop 1 invariant rangeindex + 1 <= len(content.Blocks) && (rangeindex == 0 - 1 ==> (forall k string :: !has(elems, k)))
 
 // verif:func (UnknownBody).Unknown
@@ -174,6 +175,28 @@ package hcldec
 //@ ensures unknown: !isKnownVal(ret0) ==> conformsTo(ret0, listOf(implied(s.Nested)))
 //@ ensures unknownMarks: !isKnownVal(ret0) && len(ret1) == 0 ==> (exists j int :: { content.Blocks[j] } 0 <= j && j < len(content.Blocks) && (forall k iface :: { marked(ret0, k) } bodyMarked(content.Blocks[j].Body, k) ==> marked(ret0, k)))
 //@ loop 1 invariant rangeindex + 1 <= len(content.Blocks) && (rangeindex == 0 - 1 ==> len(elems) == 0)
+
+// Block tuples and block objects have the dynamic pseudo-type as implied type (every value
+// conforms); what is stated is the mark rule for a body generated from an unknown for_each.
+// verif:func (*BlockTupleSpec).impliedType
+//@ pure
+//@ ensures ret == cty.DynamicPseudoType
+// verif:func (*BlockObjectSpec).impliedType
+//@ pure
+//@ ensures ret == cty.DynamicPseudoType
+// verif:func (*BlockTupleSpec).decode
+//@ nosafety
+//@ requires s.Nested != nil && content != nil
+//@ ensures unknownMarks: !isKnownVal(ret0) && len(ret1) == 0 ==> (exists j int :: { content.Blocks[j] } 0 <= j && j < len(content.Blocks) && (forall k iface :: { marked(ret0, k) } bodyMarked(content.Blocks[j].Body, k) ==> marked(ret0, k)))
+//@ loop 1 invariant rangeindex + 1 <= len(content.Blocks)
+// verif:func (*BlockObjectSpec).decode$1
+//@ nosafety
+//@ ensures isKnownVal(ret)
+// verif:func (*BlockObjectSpec).decode
+//@ nosafety
+//@ requires s.Nested != nil && content != nil
+//@ ensures unknownMarks: !isKnownVal(ret0) && len(ret1) == 0 ==> (exists j int :: { content.Blocks[j] } 0 <= j && j < len(content.Blocks) && (forall k iface :: { marked(ret0, k) } bodyMarked(content.Blocks[j].Body, k) ==> marked(ret0, k)))
+//@ loop 1 invariant rangeindex + 1 <= len(content.Blocks)
 
 // verif:func (*BlockSetSpec).impliedType
 //@ requires s.Nested != nil
